@@ -327,6 +327,21 @@ func intrinsicTable() map[string]intrinsic {
 		m.civSeen = append(m.civSeen, t.civ)
 		return done(t)
 	}
+	T[zz+"CivilTimeYears"] = func(m *Machine, th *Thread, fr *Frame, f FuncV, a []Value) (Value, invStatus) {
+		// like CivilTime, with the year inside [ylo, yhi] (constants) and the weekday tied to the date by the
+		// calendar formula, so that two independent civil inputs have consistent weekdays
+		t := m.newCivilInput(m.argStr(a[0]), a[1])
+		ylo, yhi := a[2].(*Term), a[3].(*Term)
+		if !ylo.IsConst() || !yhi.IsConst() || ylo.val < 1971 || yhi.val > 2090 || ylo.val > yhi.val {
+			panic(unsupported("CivilTimeYears: constant year range inside 1971..2090 required"))
+		}
+		c := t.civ
+		m.decide(1, func(int) *Term {
+			return m.tt.And(m.tt.Cmp(OpULE, m.cf(ylo.val), c.y), m.tt.Cmp(OpULE, c.y, m.cf(yhi.val)), m.tt.Eq(c.w, m.weekdayOf(c.y, c.mo, c.d, ylo.val, yhi.val)))
+		})
+		m.civSeen = append(m.civSeen, t.civ)
+		return done(t)
+	}
 	T[zz+"TimeFromNanos"] = func(m *Machine, th *Thread, fr *Frame, f FuncV, a []Value) (Value, invStatus) {
 		return done(TimeV{ns: a[0].(*Term), zero: m.tt.ff})
 	}
